@@ -1,7 +1,8 @@
 /* merge_econf_files (real code, lib/mergefiles.c) over a history of K files
  * (C01 C12 C20): masking by base name and the left-to-right fold.
  * -DK=1..4.  Symbolic: whether the first member is the main file, the layer
- * (ascending) and the base name (a or b) of every drop-in. */
+ * (ascending) and the base name (a, ab or b: one a proper prefix of another)
+ * of every drop-in. */
 #include "common.h"
 #include "h3.h"
 #include "mergefiles.h"
@@ -20,7 +21,11 @@ static econf_file *mk_file(int layer, int name, bool is_main)
   char *p = malloc(12);
   __CPROVER_assume(p != NULL);
   if (is_main) { char t[] = "/0/n.s"; t[1] = (char)('0' + layer); for (int i = 0; i < 7; i++) p[i] = t[i]; }
-  else { char t[] = "/0/n.s.d/a"; t[1] = (char)('0' + layer); t[9] = name ? 'b' : 'a'; for (int i = 0; i < 11; i++) p[i] = t[i]; }
+  else {
+    char t[] = "/0/n.s.d/a\0"; t[1] = (char)('0' + layer);
+    if (name == 1) t[10] = 'b'; else if (name == 2) t[9] = 'b';
+    for (int i = 0; i < 12; i++) p[i] = t[i];
+  }
   ef->path = p;
   h3.live++;
   return ef;
@@ -32,8 +37,9 @@ int main(void)
   in_first_is_main = nondet_bool();
   econf_file *files[H3_MAX + 1];
   for (int i = 0; i < K; i++) {
-    in_layer[i] = nondet_int(); in_name[i] = nondet_bool();
+    in_layer[i] = nondet_int(); in_name[i] = nondet_int();
     __CPROVER_assume(in_layer[i] >= 0 && in_layer[i] <= 2);
+    __CPROVER_assume(in_name[i] >= 0 && in_name[i] <= 2);   /* a < ab < b */
     /* processing order: drop-ins by ascending layer, inside a layer by name, no name twice in a layer */
     if (i > (in_first_is_main ? 1 : 0))
       __CPROVER_assume(in_layer[i - 1] < in_layer[i] || (in_layer[i - 1] == in_layer[i] && in_name[i - 1] < in_name[i]));
